@@ -494,7 +494,8 @@ def run_queries(ctx, queries, witness=True, jobs=None):
             except Inconclusive as ex_:
                 d, rep = None, False
                 rec['replay'] = 'replay build failed: %s' % ex_
-            only_ptr = all(('pointer' in (x[1] or '') and 'overflow' in (x[1] or '')) for x in rec.get('failed', [['', '', '']]))
+            fl = rec.get('failed') or [['', '', '']]
+            only_ptr = all(('pointer' in (x[1] or '') and 'overflow' in (x[1] or '')) for x in fl)
             if rep:
                 ctx.violations.append(('%s: %s' % (q.name, rec.get('failed', [['', '?']])[0][1]), d))
             elif only_ptr:
